@@ -32,7 +32,10 @@ TRACE_CFG = ('SPECIFICATION Spec\nCONSTANTS\n  MaxLen = 0\n  Alphabet = {}\n  Mu
              '  MinChanges = 0\n  Skips = {}\n  OnlyBfs = FALSE\n  FillerIdx = {}\n  Inject = FALSE\n  FinishEarly = FALSE\n  OnlyWordPairs = FALSE\nPOSTCONDITION TraceAccepted\nCHECK_DEADLOCK FALSE\n')
 
 # Probe texts: every keyword the grammar matches as one literal, the other word sequences of X.680,
-# abutting punctuation, and character strings that contain comment markers.
+# abutting punctuation, character strings that contain comment markers, CLASS.&field and ENUMERATED {.
+# Tiers: smoke (probes + tiny fixtures, strings <= 4; for sensitivity demonstrations), quick, thorough.
+# Environment (development only): VERIF_FINDINGS=<file> another findings file, VERIF_C14_ONLY=masks|layout,
+# VERIF_TLC_WORKERS (default 8), VERIF_NPROC (pipeline, default 16).
 PROBE_KEYWORDS = '''Probe-1 DEFINITIONS AUTOMATIC TAGS EXTENSIBILITY IMPLIED ::= BEGIN
 IMPORTS T1 FROM Other-1 WITH SUCCESSORS T2 FROM Other-2 WITH DESCENDANTS;
 A ::= SEQUENCE {
@@ -62,6 +65,12 @@ A ::= SEQUENCE {
   c VisibleString DEFAULT "p/*q*/r",
   d UTF8String DEFAULT "say ""hi"""
 }
+END
+'''
+PROBE_OTHER = '''Probe-5 DEFINITIONS ::= BEGIN
+C ::= CLASS { &id INTEGER UNIQUE, &Type }
+A ::= SEQUENCE { a C.&id, b C.&Type }
+E ::= ENUMERATED {x, y}
 END
 '''
 PROBE_MARKER = '''Probe-4 DEFINITIONS ::= BEGIN
@@ -201,7 +210,8 @@ def probe_texts():
     return [{'tid': 'probe-keywords', 'src': 'probe', 'name': 'probe: multi-word keywords', 'text': PROBE_KEYWORDS, 'bfs': True, 'kw': True},
             {'tid': 'probe-tiny', 'src': 'probe', 'name': 'probe: tiny', 'text': PROBE_TINY, 'bfs': True, 'bfs2': True},
             {'tid': 'probe-strings', 'src': 'probe', 'name': 'probe: strings with markers', 'text': PROBE_STRINGS, 'bfs': True},
-            {'tid': 'probe-marker', 'src': 'probe', 'name': 'probe: -- in a string', 'text': PROBE_MARKER, 'bfs': True}]
+            {'tid': 'probe-marker', 'src': 'probe', 'name': 'probe: -- in a string', 'text': PROBE_MARKER, 'bfs': True},
+            {'tid': 'probe-other', 'src': 'probe', 'name': 'probe: CLASS.&field, ENUMERATED {', 'text': PROBE_OTHER, 'bfs': True}]
 
 
 def layout_cfg(max_changes, min_changes, skips, bfs, fillers, inject, invariants, word_pairs=False):
@@ -291,7 +301,7 @@ def layout_phase(run, tier, seed):
                                    'sched_%s.ndjson' % tag, workers=workers(), env={'TOKENS_FILE': path}, what='Layout BFS: ' + what)
         scheds += pl.dedup_cases(out, tag)
     clock('layout bfs')
-    num, depth = (20, 100) if tier == 'smoke' else (150, 100) if quick else (6000, 200)
+    num, depth = (20, 100) if tier == 'smoke' else (120, 100) if quick else (4000, 200)
     out, res = pl.tlc_generate(run, 'Layout', layout_cfg(100000, 1, 'Skips = {1, 2, 3, 5, 8, 13, 21, 34}', False, allf, True, []),
                                'sched_sim.ndjson', workers=workers(), simulate='num=%d' % num, depth=depth,
                                env={'TOKENS_FILE': wpath}, timeout=3600,
